@@ -1,5 +1,7 @@
 import FinamModel.DriverUtil
 import FinamModel.TimeAdapters
+import FinamModel.Integration
+import FinamModel.Spill
 /-! Line-protocol handlers for the time adapters (C11). -/
 namespace Finam.Driver
 open Lean Finam
@@ -52,8 +54,96 @@ def handleC11 (j : Json) : Json :=
     ("lens", jList jNat (TA.runLens k TA.init evs0)),
     ("pre", Json.bool (TA.preAllB k TA.init evs0))]
 
+def parseCfg (j : Json) : TI.Cfg :=
+  let step := if hasKey j "step" then some (asRat (getObj j "step")) else none
+  let mode := if getStr j "mode" == "avg" then TI.Mode.avg
+              else TI.Mode.sum (getBool j "per_time") (getInt j "init_us")
+  ⟨step, mode⟩
+
+def combineSpec (rs : List (Option Rat)) : Json :=
+  if rs.all Option.isSome && !rs.isEmpty then jList jRat (rs.filterMap id) else Json.null
+
+/-- C12: run a notification/request history through the integration adapter model; `spec` is the
+    exact integral of the interpolant of the full history where the property defines it -/
+def handleC12 (j : Json) : Json :=
+  let c := parseCfg j
+  let evsJ := getArr j "events"
+  let nc := cellCount evsJ
+  let perCell := (List.range nc).map fun k => evsJ.filterMap (parseTAEv k)
+  let both := perCell.map fun evs => TI.runBoth c TI.init evs
+  let n := evsJ.length
+  let implRows := transpose n (both.map fun b => b.map (·.1))
+  let specRows := transpose n (both.map fun b => b.map (·.2))
+  let evs0 := perCell.headD []
+  Json.mkObj [
+    ("impl", jList combine implRows),
+    ("spec", jList combineSpec specRows),
+    ("lens", jList jNat (TI.runLens c TI.init evs0)),
+    ("pre", Json.bool (TI.preAllB c TI.init evs0))]
+
+def parseSlotKind (j : Json) : SP.SlotKind :=
+  let step := if hasKey j "step" then some (asRat (getObj j "step")) else none
+  match getStr j "kind" with
+  | "output" => .output
+  | "next" => .next
+  | "prev" => .prev
+  | "linear" => .linear
+  | "step" => .step (asRat (getObj j "pos"))
+  | "stack" => .stack
+  | "avg" => .avg step
+  | _ => .sum step (getBool j "per_time") (getInt j "init_us")
+
+/-- `["push", t, [cells], nbytes]`, `["pull", k, t]`, `["finalize"]` -/
+def parseSPEv (cell : Nat) (j : Json) : Option SP.Ev :=
+  match arr j with
+  | [k, a, b, c] => if asStr k == "push" then some (.push (asInt a) (asRat ((arr b).getD cell Json.null)) (asNat c)) else none
+  | [k, a, b] => if asStr k == "pull" then some (.pull (asNat a) (asInt b)) else none
+  | [k] => if asStr k == "finalize" then some .finalize else none
+  | _ => none
+
+def cellCountSP (evs : List Json) : Nat :=
+  (evs.filterMap fun j => match arr j with | [_, _, b, _] => some (arr b).length | _ => none).head?.getD 1
+
+/-- per event: rows = cells, each a list over stacked entries -> `{"ok": [[cells] per entry]}` -/
+def combineSP (rs : List (Option (Except Err (List Rat)))) : Json :=
+  match rs with
+  | [] => Json.null
+  | none :: _ => Json.null
+  | some _ :: _ =>
+    let errs := rs.filterMap fun r => match r with | some (.error e) => some e | _ => none
+    match errs with
+    | e :: _ => jErr e
+    | [] =>
+      let cells := rs.filterMap fun r => match r with | some (.ok v) => some v | _ => none
+      let m := (cells.headD []).length
+      Json.mkObj [("ok", jList (jList jRat) (transpose m cells))]
+
+/-- C10: run an event history through the spilling slot and through the all-in-RAM reference -/
+def handleC10 (j : Json) : Json :=
+  let kind := parseSlotKind j
+  let limit := getOptInt j "limit"
+  let c := SP.mkCfg kind limit (some "loc") 0 0
+  let nEnds := if hasKey j "n_ends" then getNat j "n_ends" else 1
+  let evsJ := getArr j "events"
+  let nc := cellCountSP evsJ
+  let perCell := (List.range nc).map fun k => evsJ.filterMap (parseSPEv k)
+  let n := evsJ.length
+  let spill := perCell.map fun evs => SP.runS c (SP.initS nEnds) evs
+  let ram := perCell.map fun evs => SP.runR kind (SP.initR nEnds) evs
+  let evs0 := perCell.headD []
+  let states := SP.statesS c (SP.initS nEnds) evs0
+  Json.mkObj [
+    ("answers", jList combineSP (transpose n spill)),
+    ("ref", jList combineSP (transpose n ram)),
+    ("files", jList (fun s => jList (fun p => jNat p.1.n) s.fs) states),
+    ("total", jList (fun s => jInt s.total) states),
+    ("lens", jList (fun s => jNat s.data.length) states),
+    ("created", jNat ((states.getLast?.map fun s => s.created.length).getD 0))]
+
 def timeHandlers : List (String × (Json → Json)) := [
-  ("c11", handleC11)
+  ("c11", handleC11),
+  ("c12", handleC12),
+  ("c10", handleC10)
 ]
 
 end Finam.Driver
